@@ -2474,10 +2474,11 @@ non-trivial = at least one byte was relayed or the bridge was polled at least tw
     let total = plan.len();
     let threads = std::thread::available_parallelism().map_or(4, std::num::NonZero::get).min(16).min(total.max(1));
     const BLOCK: usize = 64;
-    // blocks of case indices; every huge case is a block of its own and these come first, so that they
-    // are spread over the workers
+    // blocks of case indices, dealt out to the workers in turn; every huge case is a block of its own, so
+    // that they are spread over the workers, and these come last, so that a defect which small cases show as
+    // well is reported with a small case
     let hr = plan.huge_range();
-    let mut blocks: Vec<std::ops::Range<usize>> = hr.clone().map(|i| i..i + 1).collect();
+    let mut blocks: Vec<std::ops::Range<usize>> = vec![];
     for part in [0..hr.start, hr.end..total] {
         let mut lo = part.start;
         while lo < part.end {
@@ -2486,6 +2487,7 @@ non-trivial = at least one byte was relayed or the bridge was polled at least tw
             lo = hi;
         }
     }
+    blocks.extend(hr.map(|i| i..i + 1));
     let blocks = &blocks;
     let n_blocks = blocks.len();
     let driver = args.driver.clone();
